@@ -624,7 +624,7 @@ class _InternalBaseTracer(_InternalBaseTracerSuper, metaclass=MetaTracerStateMac
     def instrumented(self, f: Callable) -> Callable:
         f_defined_file = f.__code__.co_filename
         with self.tracing_disabled():
-            code = ast.parse(textwrap.dedent(inspect.getsource(f)))
+            code = parse_function_source(f)
             code.body[0] = self.make_ast_rewriter(f.__code__.co_filename).visit(
                 code.body[0]
             )
@@ -1111,6 +1111,22 @@ def skip_when_tracing_disabled(handler):
         return handler(self, *args, **kwargs)
 
     return skipping_handler
+
+
+def parse_function_source(f: Callable) -> ast.Module:
+    """The definition of `f` as a module of its own, with the positions it has in its file.  An indented
+    definition (a method, a function defined under `if`) is parsed inside an `if 1:` block rather than dedented:
+    dedenting would also strip the margin inside its multi-line string literals."""
+    lines, start = inspect.getsourcelines(f)
+    source = "".join(lines)
+    if source[:1] in (" ", "\t"):
+        wrapped = ast.parse("if 1:\n" + source)
+        module = ast.Module(body=list(wrapped.body[0].body), type_ignores=[])  # type: ignore
+        ast.increment_lineno(module, start - 2)
+    else:
+        module = ast.parse(source)
+        ast.increment_lineno(module, start - 1)
+    return module
 
 
 def register_universal_handler(handler):
